@@ -1,3 +1,4 @@
+import Splipy.Lemmas.C10Cummax
 import Splipy.Lemmas.C07Split
 import Splipy.Lemmas.EvalRow
 import Splipy.Model.Split
@@ -115,9 +116,8 @@ theorem Basis.mk?_piece {b : Basis K} (hv : b.Valid) (lo hi : ℕ) (tol : K) (ht
   rw [if_neg (by omega), if_neg (by rw [hs]; omega)]
   have hper : ¬ ((max (-1 : Int) (-1)) ≥ 0) := by decide
   simp only [hper, false_and, if_false]
-  rw [if_neg]
-  · rfl
-  · simp only [List.any_eq_true, List.mem_range, decide_eq_true_eq, not_exists, not_and, not_lt]
+  have hsort : ∀ i, i + 1 < (b.knots.extract lo (hi + b.order)).size →
+      (b.knots.extract lo (hi + b.order)).getD i 0 ≤ (b.knots.extract lo (hi + b.order)).getD (i + 1) 0 := by
     intro i hi'
     rw [hs] at hi'
     have e1 : (b.knots.extract lo (hi + b.order)).getD (i+1) 0 = b.kn (lo + (i+1)) := by
@@ -129,7 +129,13 @@ theorem Basis.mk?_piece {b : Basis K} (hv : b.Valid) (lo hi : ℕ) (tol : K) (ht
       rw [← this, Basis.kn_of_lt _ (by rw [b.piece_size lo hi h2]; omega)]
       simp [Basis.piece, Array.getD, hs, show i < hi + b.order - lo by omega]
     rw [e1, e0]
-    have := hv.kn_mono (show lo + i ≤ lo + (i+1) by omega)
+    exact hv.kn_mono (show lo + i ≤ lo + (i+1) by omega)
+  rw [if_neg]
+  · rw [Basis.cummax_of_sorted _ hsort]
+    rfl
+  · simp only [List.any_eq_true, List.mem_range, decide_eq_true_eq, not_exists, not_and, not_lt]
+    intro i hi'
+    have := hsort i (by omega)
     linarith
 
 end Splipy
